@@ -245,6 +245,31 @@ func c02Tasks(tier string) []Task {
 		}
 		diagPairs = append(diagPairs, [2]Cfg{a, cfgs[(indexOfCfg(cfgs, a)+1)%len(cfgs)]})
 	}
+	// long keys (two 20 000-byte keys): hint files and records that span block boundaries, reopened under every
+	// index type (the index back-ends differ in whether they copy a key handed to them)
+	{
+		lw := defaultCfg
+		lw.FileSize = 1 << 20
+		var lr []Cfg
+		for _, ix := range []int8{1, 2, 3} {
+			for _, io := range []byte{0, 1} {
+				c := lw
+				c.Index, c.IO = ix, io
+				lr = append(lr, c)
+			}
+		}
+		alpha := func(c Cfg) []Op {
+			return []Op{{K: "put", Key: c18LongKeys[0], VC: "S"}, {K: "put", Key: c18LongKeys[1], VC: "S"}, {K: "put", Key: "m", VC: "S"},
+				{K: "del", Key: c18LongKeys[1], Dev: true}, {K: "merge", Dev: true}, {K: "xrestart", Dev: true}}
+		}
+		for _, wix := range []int8{1, 3} {
+			w := lw
+			w.Index = wix
+			run := makeRunC02(w, lr[0], lr)
+			lv := seqLevel{Name: "longkeys-d4", Cfgs: []Cfg{w}, Keys: c18LongKeys, Alpha: alpha, Depth: 4, Dev: 2, Run: run}
+			tasks = append(tasks, seqTasks("C02", []seqLevel{lv})...)
+		}
+	}
 	if tier == "quick" {
 		addLevel("pairs-d2", allPairs, 2, 2)
 		addLevel("ring-d3b2", diagPairs, 3, 2)
